@@ -21,6 +21,7 @@ from netqasm.sdk.classical_communication.thread_socket import socket as ts_socke
 from netqasm.sdk.classical_communication.thread_socket import socket_hub as ts_hub
 
 HUB_FILE = ts_hub.__file__
+PRODUCTION_HUB = ts_socket.ThreadSocket._SOCKET_HUB      # what the package's sockets are bound to when the package is imported
 # any attribute of the hub except its logger and the class constants, locals that alias shared containers,
 # callback invocations, and operations on event / condition objects
 SHARED = re.compile(r"self\._(?!logger\b|RECV_SLEEP_TIME\b|CONNECT_SLEEP_TIME\b)[a-z]\w*|\bmessages\b|\bpending\b|\bmethod\(|\b\w*(event|cond)\w*\.(set|clear|wait|notify\w*)\(")
@@ -159,11 +160,18 @@ class Worker(threading.Thread):
 class Sched:
     """Owns a fresh hub and the workers of one run."""
 
-    def __init__(self):
+    def __init__(self, use_global: bool = False):
+        self.use_global = use_global
         if hasattr(ts_hub, "Event"):
             # a hub that waits on threading.Event objects: make them cooperative before the hub creates any
             ts_hub.Event = lambda: CoopEvent(self)  # type: ignore
-        self.hub = ts_hub._SocketHub()
+        if use_global:
+            # the hub the package's sockets use in production (a module-level object), after the package's own reset
+            ts_socket.ThreadSocket._SOCKET_HUB = PRODUCTION_HUB       # (an earlier run of this process may have bound a private hub)
+            ts_hub.reset_socket_hub()
+            self.hub = ts_socket.ThreadSocket._SOCKET_HUB
+        else:
+            self.hub = ts_hub._SocketHub()
         self.hub.__class__._CONNECT_SLEEP_TIME = 0
         self.hub.__class__._RECV_SLEEP_TIME = 0
         self.lock = CoopLock(self)
@@ -253,9 +261,11 @@ def make_body(sched: Sched, tid: int, ep: Dict[str, Any]):
                     cls = CbSocket if ep["cb"] else ts_socket.ThreadSocket
                     if ep["cb"]:
                         CbSocket.sink = staticmethod(sink)
-                    ts_socket.ThreadSocket._SOCKET_HUB = sched.hub
+                    if not sched.use_global:
+                        ts_socket.ThreadSocket._SOCKET_HUB = sched.hub
                     sock = cls(ep["name"], ep["remote"], socket_id=ep["id"], use_callbacks=ep["cb"])
-                    sock._SOCKET_HUB = sched.hub
+                    if not sched.use_global:
+                        sock._SOCKET_HUB = sched.hub
                 elif op == "send":
                     sock.send(arg)
                 elif op == "recv":
@@ -291,9 +301,28 @@ def snapshot(sched: Sched) -> Dict[str, Any]:
 def run_schedule(scenario: List[Dict[str, Any]], schedule: List[int]):
     """Execute one schedule (list of thread ids) from scratch on fresh real threads.
     Returns (sched, snapshots after each step) - caller must call sched.shutdown()."""
-    s = Sched()
-    for tid, ep in enumerate(scenario, start=1):
-        s.add(tid, make_body(s, tid, ep))
+    if isinstance(scenario, dict):
+        # two phases on the package's own hub with its reset function in between: phase 1 runs to its end under a fixed
+        # alternating schedule, then reset_socket_hub(), then the endpoints of phase 2 follow `schedule`
+        s = Sched(use_global=True)
+        ph1, ph2 = scenario["phases"]
+        for tid, ep in enumerate(ph1, start=1):
+            s.add(tid, make_body(s, tid, ep))
+        n = 0
+        while s.runnable() and n < 400:
+            run = s.runnable()
+            s.step(run[n % len(run)])
+            n += 1
+        s.log(t=0, ev="reset")
+        ts_hub.reset_socket_hub()
+        s.hub = ts_socket.ThreadSocket._SOCKET_HUB
+        s.hub._lock = s.lock  # type: ignore
+        for tid, ep in enumerate(ph2, start=len(ph1) + 1):
+            s.add(tid, make_body(s, tid, ep))
+    else:
+        s = Sched()
+        for tid, ep in enumerate(scenario, start=1):
+            s.add(tid, make_body(s, tid, ep))
     snaps = []
     for tid in schedule:
         s.step(tid)
